@@ -96,6 +96,15 @@ Proof.
   - intros _. left. repeat split.
 Qed.
 
+Lemma not_closed_flag : forall s, inv s -> sig s <> Closed -> is_closed s = false.
+Proof.
+  intros s I H. destruct (is_closed s) eqn:E; [|reflexivity].
+  exfalso. apply H. apply (inv_closed s I). exact E.
+Qed.
+
+Lemma closed_flag : forall s, inv s -> sig s = Closed -> is_closed s = true.
+Proof. intros s I H. apply (inv_closed s I). exact H. Qed.
+
 Lemma same_sections_eq : forall a b, same_sections a b = true <-> a = b.
 Proof.
   induction a as [|[x1 x2] a IH]; intros [|[y1 y2] b]; cbn; split; intro H; try reflexivity; try discriminate.
@@ -134,9 +143,11 @@ Proof.
   destruct (well_formed Remote d) eqn:W; [|cbn; auto].
   cbn [andb].
   assert (Hdtls := well_formed_remote_has_dtls d W).
+  assert (Hnc : is_closed s = false).
+  { apply (not_closed_flag s I). intro E. rewrite E in J. destruct (d_type d); discriminate. }
   destruct Hn as [Ht|Ht]; rewrite Ht in *; cbn [answer_like].
   - (* offer *)
-    rewrite Hdtls, andb_false_r.
+    rewrite Hdtls, andb_false_r, Hnc.
     rewrite (state_update_remote (sig s) TOffer nxt (or_introl eq_refl) J). cbn. auto.
   - (* answer *)
     assert (Hs : sig s = HaveLocalOffer).
@@ -145,18 +156,9 @@ Proof.
     destruct (inv_hlo s I Hs) as [o [Ho _]].
     unfold local_description. rewrite Ho.
     destruct (same_sections (sections d) (sections o)); [|cbn; auto].
-    rewrite Hdtls, andb_false_r.
+    rewrite Hdtls, andb_false_r, Hnc.
     rewrite (state_update_remote (sig s) TAnswer nxt (or_intror eq_refl) J). cbn. auto.
 Qed.
-
-Lemma not_closed_flag : forall s, inv s -> sig s <> Closed -> is_closed s = false.
-Proof.
-  intros s I H. destruct (is_closed s) eqn:E; [|reflexivity].
-  exfalso. apply H. apply (inv_closed s I). exact E.
-Qed.
-
-Lemma closed_flag : forall s, inv s -> sig s = Closed -> is_closed s = true.
-Proof. intros s I H. apply (inv_closed s I). exact H. Qed.
 
 Lemma set_local_explicit_refines : forall s d c, inv s -> negotiable (d_type d) ->
   let '(s', (r, ev)) := set_local s (Some d) c in
@@ -237,6 +239,7 @@ Proof.
         destruct (state_update _ _ _) as [sg ev]. destruct (dtype_eqb _ _); cbn; intro H; exfalso; apply H; reflexivity.
   - unfold set_remote, fail. destruct (validate s d false); cbn [fst snd]; auto.
     destruct (_ && _); cbn [fst snd]; auto.
+    destruct (is_closed s); cbn [fst snd]; auto.
     destruct (state_update _ _ _) as [sg ev]. destruct (dtype_eqb _ _); cbn; intro H; exfalso; apply H; reflexivity.
   - unfold close. destruct (is_closed s); cbn; intro H; exfalso; apply H; reflexivity.
 Qed.
@@ -264,11 +267,11 @@ Proof.
   assert (Hnc : is_closed s = false).
   { apply (not_closed_flag s I). intro E. rewrite E in J. destruct (d_type d); discriminate. }
   destruct Hn as [Ht|Ht]; rewrite Ht in *; cbn [answer_like].
-  - rewrite Hdtls, andb_false_r.
+  - rewrite Hdtls, andb_false_r, Hnc.
     rewrite (state_update_remote (sig s) TOffer nxt (or_introl eq_refl) J). cbn [dtype_eqb dtype_code Z.eqb fst].
     assert (nxt = HaveRemoteOffer) by (destruct (sig s); cbn in J; inversion J; reflexivity). subst nxt.
     constructor; cbn; try discriminate.
-    + rewrite Hnc. split; discriminate.
+    + split; discriminate.
     + intros _. exists d. auto.
     + exact (inv_pl s I).
     + exact (inv_cl s I).
@@ -280,11 +283,11 @@ Proof.
     destruct (inv_hlo s I Hs) as [o [Ho Hot]].
     unfold local_description. rewrite Ho.
     destruct (same_sections (sections d) (sections o)) eqn:Hsec; [|exact I].
-    rewrite Hdtls, andb_false_r.
+    rewrite Hdtls, andb_false_r, Hnc.
     rewrite (state_update_remote (sig s) TAnswer nxt (or_intror eq_refl) J). cbn [dtype_eqb dtype_code Z.eqb fst].
     assert (nxt = Stable) by (rewrite Hs in J; cbn in J; inversion J; reflexivity). subst nxt.
     constructor; cbn; try discriminate.
-    + rewrite Hnc. split; discriminate.
+    + split; discriminate.
     + intros _. right. exists o, d. repeat split; auto.
       apply same_sections_eq. exact Hsec.
     + apply typed_some. exact Hot.
@@ -389,7 +392,7 @@ Proof.
   - unfold set_local, fail. rewrite Hc. auto.
   - unfold set_remote, fail. destruct (d_type d) eqn:T.
     1, 3: unfold validate; rewrite Hs, T; cbn; auto.
-    all: destruct (validate s d false); cbn [fst]; auto; rewrite ?T; cbn; auto.
+    all: destruct (validate s d false); cbn [fst]; auto; rewrite ?T, Hc; cbn; auto.
   - unfold close. rewrite Hc. auto.
 Qed.
 
@@ -472,6 +475,7 @@ Proof.
     rewrite (state_update_remote (sig s) (d_type d) nxt Ha J).
     destruct (well_formed Remote d) eqn:W; [|reflexivity].
     rewrite (well_formed_remote_has_dtls d W), andb_false_r.
+    rewrite (not_closed_flag s I) by (intro E; rewrite E in J; destruct (d_type d); discriminate).
     destruct (answer_like (d_type d)).
     + destruct (local_description s); [|reflexivity].
       destruct (same_sections _ _); [|reflexivity]. destruct (dtype_eqb _ _); reflexivity.
@@ -574,4 +578,28 @@ Proof.
     repeat split; try discriminate; try reflexivity; auto;
     try (intros [_ [Hx|Hx]]; discriminate);
     try (intros [_ [Hx Hy]]; exfalso; (apply Hx; reflexivity) || (apply Hy; reflexivity)).
+Qed.
+
+(* ---- closed is absorbing for EVERY call, also outside the alphabet ------------------ *)
+Lemma closed_step_any : forall s o, is_closed s = true -> sig s = Closed ->
+  fst (step s o) = s /\ (snd (step s o) = Done -> o = Close).
+Proof.
+  intros s o Hc Hs. rewrite step_step_full. cbn [fst snd].
+  destruct o as [| |arg c|d|]; cbn [step_full fail fst snd].
+  - unfold create_offer. rewrite Hc. split; [reflexivity|discriminate].
+  - unfold create_answer. rewrite Hc. split; [reflexivity|discriminate].
+  - unfold set_local, fail. rewrite Hc. cbn. split; [reflexivity|discriminate].
+  - unfold set_remote, fail. destruct (validate s d false); cbn [fst snd]; try (split; [reflexivity|discriminate]).
+    destruct (_ && _); cbn [fst snd]; [split; [reflexivity|discriminate]|].
+    rewrite Hc. cbn. split; [reflexivity|discriminate].
+  - unfold close. rewrite Hc. cbn. split; reflexivity.
+Qed.
+
+Theorem closed_absorbing_any : forall ops s, is_closed s = true -> sig s = Closed ->
+  fst (run s ops) = s /\
+  Forall2 (fun o r => r = Done -> o = Close) ops (snd (run s ops)).
+Proof.
+  induction ops as [|o ops IH]; intros s Hc Hs; [split; [reflexivity|constructor]|].
+  rewrite run_cons. cbn [fst snd]. destruct (closed_step_any s o Hc Hs) as [E H]. rewrite E.
+  destruct (IH s Hc Hs) as [E2 H2]. split; [exact E2|]. constructor; assumption.
 Qed.
